@@ -183,3 +183,36 @@ def rule_dtarith(crate):
     out.analysed = {"sites": n_sites}
     out.floor("sites", n_sites, 5)
     return out
+
+
+def rule_floatcast(crate, files=("numbat/src/ffi/datetime.rs", "numbat/src/datetime.rs")):
+    """FLOATCAST — in the date-time code a float is turned into an integer only by a CHECKED conversion (`to_i64()`),
+    never by `as`: the `as` cast maps NaN to 0 and saturates infinities, which turns an invalid argument into a valid
+    but wrong date (from_unixtime(NaN) = 1970-01-01) instead of an error.  Exempt: the rounding of a fractional part
+    (`(x.fract() * 1e9).round() as i64`, bounded by construction)."""
+    out = RuleOut("FLOATCAST", "no unchecked float-to-integer cast in the date-time code")
+    n = 0
+    bodies = [b for d, b in crate.hir.items() if any(crate.file_of(b).endswith(x) for x in files) and "::tests::" not in d]
+    run = crate.find_fn("vm::Vm::run_without_cleanup")
+    arms = _arms(crate, run)
+    scopes = [(b, b["body"]) for b in bodies] + [(run, a["body"]) for a in arms.values()]
+    for (fn, body) in scopes:
+        for c in walk(body):
+            if c.get("k") != "Cast":
+                continue
+            src = crate.ty(c["e"])
+            dst = crate.ty(c)
+            if src not in ("f64", "f32") or not (dst.startswith("i") or dst.startswith("u")):
+                continue
+            n += 1
+            cf, cl = crate.loc(fn, c)
+            key = "%s:%s->%s" % (fn["name"], src, dst)
+            if any(x.get("k") == "MethodCall" and x["name"] == "fract" for x in walk(c["e"])):
+                out.exempt(key, cf, cl, "rounds `fract() * 1e9`: |x| <= 1e9 by construction")
+            else:
+                out.violation(key, cf, cl, "`<float> as %s` in `%s`: NaN becomes 0 and infinities saturate, so an invalid argument yields a valid but wrong date instead of an error (use the checked `to_i64()`)" % (dst, fn["name"]))
+    if n == 0 or not any(f.verdict == "violation" for f in out.findings):
+        out.ok("no-unchecked-float-cast", files[0], 1, "%d float-to-integer cast(s) in the date-time code, all bounded" % n)
+    out.analysed = {"bodies": len(scopes), "float_to_int_casts": n}
+    out.floor("bodies", len(scopes), 10)
+    return out
